@@ -1781,7 +1781,7 @@ Error query_features(Arch arch, const BaseInst& inst, const Operand_* operands, 
 
         // Special case: VPERMQ - AVX2 vs AVX512-F case.
         case Inst::kIdVpermq:
-          use_evex |= uint32_t(op_count >= 3 && (operands[1].is_mem() || !operands[2].is_imm()));
+          use_evex |= uint32_t(op_count >= 3 && !operands[2].is_imm());
           break;
       }
 
